@@ -22,7 +22,9 @@ FAMS = ["single:conv@8", "single:dw@8", "single:maxpool@8", "single:avgpool@8", 
         "single:add@8", "single:sub@8", "single:mul@8", "single:add_bcast@8", "single:mul_scalar@8", "single:concat@u8", "diamond", "siamese", "single:logistic@8", "single:tanh@8", "single:lrelu@8", "single:hswish@8",
         "single:transpose@8", "single:reshape@8", "single:pad@8", "single:slice@8", "single:concat@8", "conv_chain",
         "single:conv", "single:dw", "single:fc", "single:maxpool", "single:avgpool", "single:pad_bc@8",
-        "single:quantize", "single:resize_nearest@8", "single:resize_bilinear@8", "single:tconv@8", "upscale_chain", "conv_chain_big", "weights_heavy", "single:mean@8", "single:transpose_c@8", "pow2_rescale", "single:transpose_c@8", "pow2_rescale"]
+        "single:quantize", "single:resize_nearest@8", "single:resize_bilinear@8", "single:tconv@8", "upscale_chain", "conv_chain_big", "weights_heavy", "single:mean@8", "single:transpose_c@8", "pow2_rescale", "single:transpose_c@8", "pow2_rescale", "single:prelu@8", "single:prelu@8"]
+if os.environ.get("VERIF_C01_FAMS"):        # development aid: restrict the generated part to some families
+    FAMS = os.environ["VERIF_C01_FAMS"].split(",")
 
 
 def macs_of(ref):
